@@ -37,7 +37,8 @@ class Insert(ASTNode):
         elif isinstance(col, Identifier):
             return TableColumn(col.parts[0])
         elif isinstance(col, Constant):
-            return TableColumn(col.value)
+            # a column name is a string, also when it was written as a number
+            return TableColumn(str(col.value))
         return TableColumn(str(col))
 
     def to_value(self, val):
